@@ -379,10 +379,12 @@ fn oracle(c: &Case, ctx: &mut Ctx) -> CaseResult {
 fn main() {
 	let mut c = Check::new("C11", "exploration");
 	c.assume("replicas are deterministic re-executions of the whole scenario (same seeds and keys), not restores of one serialized image; a case whose prefix does not reproduce identically (funding / commitment txids, pending HTLCs) is discarded");
-	c.assume("the block tree is built once by replica 0 from the transactions its nodes broadcast; every replica is given the identical blocks, only the observed node's Listen/Confirm call schedule differs; the other nodes always see every block");
-	c.assume("knowledge that does not come from the best chain is not expected to be retracted: a preimage or a counterparty commitment shown only in a losing fork, and anything concluded from a transaction that had reached ANTI_REORG_DELAY confirmations before it was reorganised out; such replicas are compared on best block and relevant txids only");
-	c.assume("transient broadcasts are not compared; the set of outputs being claimed is probed with ChainMonitor::rebroadcast_pending_claims at common tips");
-	c.assume("reorgs never reach the channel-establishment blocks (funding is never unconfirmed); restarts are not part of the delivery plans");
+	c.assume("the block tree is built once by replica 0 (plain block_connected / blocks_disconnected(fork point)) from the transactions its nodes broadcast, checked by the consensus simulator; every replica is given the identical blocks (competing blocks have distinct hashes), only the observed node's Listen/Confirm call schedule differs; the other nodes always see every block in one fixed ConnectStyle");
+	c.assume("conclusions are compared only between replicas that hold the same knowledge beyond the current best chain: a replica that was shown a counterparty commitment only in a losing fork, was told a higher block than the current tip (the library fails HTLCs back / closes channels / matures CSV outputs from the height alone), received a claim close to an HTLC expiry while its view lagged, or saw a channel transaction reach ANTI_REORG_DELAY confirmations that later lost them, is compared on best block only; a preimage shown only in a losing fork limits the comparison to best block, relevant txids, spendable outputs and (two-node worlds) claim sets");
+	c.assume("ClosureReason classes are not compared (HTLCsTimedOut vs CommitmentTxConfirmed depends on the call schedule), transient broadcasts are not compared; the set of outputs being claimed is probed with ChainMonitor::rebroadcast_pending_claims at common tips, restricted to outputs that exist on the told chain, excluding wallet fee inputs, and not right after a bare disconnection (time-driven claims are re-derived with the next block)");
+	c.assume("burial oracle (b): fail-backs are checked for HTLCs the node had fully committed outbound when the script starts, not failed by the peer off-chain, and not within LATENCY_GRACE_PERIOD_BLOCKS of the inbound expiry (documented early fail-back); the HTLC output of a payment hash is recognised from witness scripts revealed by any transaction seen (contains RIPEMD160(payment_hash))");
+	c.assume("reorgs never reach the channel-establishment blocks (funding is never unconfirmed); restarts are not part of the delivery plans; manager-before-monitor call order is generated as a legal schedule");
+	c.assume("library panics that are not C11 verdicts are labelled, not failed: the test broadcaster's broadcast-before-locktime tripwire (C07), debug assertions in a node other than the observed one, the OnchainTxHandler duplicate-claim-id debug assertion after a commitment was reorganised out and re-confirmed (benign in release), and any panic after a transaction that had ANTI_REORG_DELAY confirmations was reorganised out (outside the property)");
 	c.set_case_timeout_secs(240);
 	c.part_with(
 		PartSpec {
